@@ -51,7 +51,7 @@ impl From<u64> for BigUint {
 //@ stub u_conv/from_u64
 }
 
-// shifts: generic PrimInt front-ends over biguint_shl2/biguint_shr2 (Cow): assumed contracts x << k = x * 2^k, x >> k = floor(x / 2^k)
+// shifts: front-ends proved in unit u_shiftops (x << k = x * 2^k, x >> k = floor(x / 2^k))
 impl ShlSpecImpl<usize> for BigUint {
     open spec fn obeys_shl_spec() -> bool { false }
     open spec fn shl_req(self, rhs: usize) -> bool { self.wf() }
@@ -59,9 +59,7 @@ impl ShlSpecImpl<usize> for BigUint {
 }
 impl Shl<usize> for BigUint {
     type Output = BigUint;
-    //@ assume BigUint:Shl<usize> : shift front-end (biguint_shl / biguint_shl2), unit pending
-    #[verifier::external_body]
-    fn shl(self, rhs: usize) -> (r: BigUint) ensures r.wf(), r.v() == self.v() * p2(rhs as nat) { unimplemented!() }
+//@ stub u_shiftops/shl_usize
 }
 impl ShlSpecImpl<usize> for &BigUint {
     open spec fn obeys_shl_spec() -> bool { false }
@@ -70,9 +68,7 @@ impl ShlSpecImpl<usize> for &BigUint {
 }
 impl Shl<usize> for &BigUint {
     type Output = BigUint;
-    //@ assume BigUint:Shl<usize>for&BigUint : shift front-end (biguint_shl / biguint_shl2), unit pending
-    #[verifier::external_body]
-    fn shl(self, rhs: usize) -> (r: BigUint) ensures r.wf(), r.v() == self.v() * p2(rhs as nat) { unimplemented!() }
+//@ stub u_shiftops/shl_ref_usize
 }
 impl ShrSpecImpl<usize> for BigUint {
     open spec fn obeys_shr_spec() -> bool { false }
@@ -81,9 +77,7 @@ impl ShrSpecImpl<usize> for BigUint {
 }
 impl Shr<usize> for BigUint {
     type Output = BigUint;
-    //@ assume BigUint:Shr<usize> : shift front-end (biguint_shr / biguint_shr2), unit pending
-    #[verifier::external_body]
-    fn shr(self, rhs: usize) -> (r: BigUint) ensures r.wf(), r.v() == self.v() / p2(rhs as nat) { unimplemented!() }
+//@ stub u_shiftops/shr_usize
 }
 
 //@ stub k_div/div_rem_digit
